@@ -155,7 +155,9 @@ class WireOracle:
                     raise OracleError('ke', 'KE payloads do not match the chosen DH transform')
                 secret = self.shared_secret(suite['dh'], kei['data'], ker['data'])
             if prop['proto'] == 1:        # IKE_SA rekey: SKEYSEED = prf(SK_d (old), g^ir (new) | Ni | Nr), new SPIs from the SA payloads
-                new_i, new_r = sa_q['proposals'][0]['spi'], prop['spi']
+                # the initiator's SPI of the new IKE_SA travels in the proposal that was CHOSEN (same Proposal Num), not in whichever proposal comes first
+                new_i = next((q['spi'] for q in sa_q['proposals'] if q['num'] == prop['num']), sa_q['proposals'][0]['spi'])
+                new_r = prop['spi']
                 keys = self.kdf.ike_keys(suite['prf'], suite['integ'], suite['encr_bits'], ni, nr, new_i, new_r, secret,
                                         old_sk_d=ctx.keys['sk_d'], old_prf_id=ctx.suite['prf'])
                 # the exchange initiator becomes the initiator of the new IKE_SA
